@@ -3,6 +3,7 @@ package worlds
 import (
 	"fmt"
 	"math/big"
+	"strings"
 
 	"github.com/gethiox/HIDI/verifsim/model"
 	"github.com/gethiox/HIDI/verifsim/simrt"
@@ -553,6 +554,41 @@ func genC04Hats(c *w1Case, r *simrt.Rng) {
 			}
 		}
 		return nil
+	}
+	if mixed && len(c.d.Mappings) >= 2 && c.d.Mapping == c.d.Mappings[0].Name && r.Chance(0.3) {
+		// directed opening (the state is still the configured one): a hat whose role differs between the mappings is
+		// deflected in the first mapping, released in the second - where it is a controller or nothing at all -, and
+		// back in the first mapping the other half of its pair is tapped on its key: that is one step, not a reset
+		for ai, a := range axes {
+			var v int32 = 1
+			x := hatAction(a, v)
+			if x == "" || strings.HasPrefix(x, "mapping") || r.Chance(0.3) {
+				v = -1
+				x = hatAction(a, v)
+			}
+			kp, up, down := keyOf(partnerOf(x)), keyOf("mapping_up"), keyOf("mapping_down")
+			if x == "" || strings.HasPrefix(x, "mapping") || kp == nil || up == nil || down == nil {
+				continue
+			}
+			m1 := &c.d.Mappings[1].Analog[0]
+			if r.Chance(0.5) {
+				m1.Axes = append(append([]model.AxisDesc(nil), m1.Axes[:ai]...), m1.Axes[ai+1:]...)
+			} else {
+				m1.Axes = append([]model.AxisDesc(nil), m1.Axes...)
+				m1.Axes[ai] = model.AxisDesc{Name: a.Name, Code: a.Code, Type: "cc", CC: ip(70 + ai), Min: -1, Max: 1, Deadzone: fp(0)}
+			}
+			g.out = append(g.out, model.Event{Kind: "abs", Code: a.Code, Value: v})
+			tapKey := func(k *model.ActionKey) {
+				if g.pressAction(*k) {
+					g.release(k.Code)
+				}
+			}
+			tapKey(up)
+			g.out = append(g.out, model.Event{Kind: "abs", Code: a.Code, Value: 0})
+			tapKey(down)
+			tapKey(kp)
+			break
+		}
 	}
 	for i := 0; i < n; i++ {
 		switch {
